@@ -47,10 +47,23 @@ func c36RunSingle(cfg c36Cfg, st *c36Store, cmd message.SendCommand) c36Outcome 
 // c36RunBatch sends the commands as ONE batch and returns one outcome per item. Admitted
 // commands are matched back to their items through ClientMsgNo (set unique by the caller).
 func c36RunBatch(cfg c36Cfg, st *c36Store, cmds []message.SendCommand, batchStore bool) []c36Outcome {
+	return c36RunBatchDeadlines(cfg, st, cmds, batchStore, nil)
+}
+
+// c36RunBatchDeadlines is c36RunBatch with a per-item context deadline (hours from now, 0 =
+// none). The deadlines are far in the future and never expire, so they must not change any
+// decision; they only split the batch into deadline cohorts.
+func c36RunBatchDeadlines(cfg c36Cfg, st *c36Store, cmds []message.SendCommand, batchStore bool, hours []int) []c36Outcome {
 	sub := &c36Submitter{}
 	items := make([]message.SendBatchItem, len(cmds))
 	for i, c := range cmds {
-		items[i] = message.SendBatchItem{Context: context.Background(), Command: c}
+		ctx := context.Background()
+		if i < len(hours) && hours[i] > 0 {
+			var cancel context.CancelFunc
+			ctx, cancel = context.WithDeadline(ctx, time.Now().Add(time.Duration(hours[i])*time.Hour))
+			defer cancel()
+		}
+		items[i] = message.SendBatchItem{Context: ctx, Command: c}
 	}
 	results := c36NewApp(cfg, st, sub, batchStore, false).SendBatch(items)
 	out := make([]c36Outcome, len(cmds))
@@ -368,20 +381,27 @@ func c36MixedEval(kind string, build func(ix []int) (c36Cfg, []c36Case)) func(ix
 				cmds[k].ClientMsgNo = fmt.Sprintf("m%d", k)
 				cmds[k].Payload = []byte{byte('a' + k)}
 			}
-			got := c36RunBatch(cfg, st, cmds, true)
-			for k, ci := range ord {
-				if d := c36Diff(singles[ci], got[k]); d != "" && viol == nil {
-					f0, _ := json.Marshal(cases[0].Facts())
-					f1, _ := json.Marshal(cases[1].Facts())
-					cf, _ := json.Marshal(cfg)
-					viol = &c36Viol{fp: "C36:mixed-batch-item-differs-from-per-send:" + kind + ":" + cases[ci].Kind + ":" + d,
-						msg: fmt.Sprintf("item %d of batch order %v (item = case %d) got %s, the same command sent alone over the same facts gets %s | case0=%s case1=%s config=%s",
-							k, ord, ci, got[k].Long(), singles[ci].Long(), f0, f1, cf)}
+			// one shared (absent) deadline, then the deadline cohort splits of the three items
+			for _, hours := range [][]int{nil, {0, 1, 2}, {2, 0, 2}, {1, 1, 0}} {
+				got := c36RunBatchDeadlines(cfg, st, cmds, true, hours)
+				for k, ci := range ord {
+					if d := c36Diff(singles[ci], got[k]); d != "" && viol == nil {
+						f0, _ := json.Marshal(cases[0].Facts())
+						f1, _ := json.Marshal(cases[1].Facts())
+						cf, _ := json.Marshal(cfg)
+						fpk := "C36:mixed-batch-item-differs-from-per-send:"
+						if hours != nil {
+							fpk = "C36:mixed-deadline-batch-item-differs-from-per-send:"
+						}
+						viol = &c36Viol{fp: fpk + kind + ":" + cases[ci].Kind + ":" + d,
+							msg: fmt.Sprintf("item %d of batch order %v with item deadlines (hours from now, 0 = none) %v (item = case %d) got %s, the same command sent alone over the same facts gets %s | case0=%s case1=%s config=%s",
+								k, ord, hours, ci, got[k].Long(), singles[ci].Long(), f0, f1, cf)}
+					}
 				}
 			}
 		}
 		sample := func() any {
-			return map[string]any{"batch": "[case0, case1, case0'] and [case1, case0, case1']", "case0": cases[0].Facts(), "case1": cases[1].Facts(), "config": cfg,
+			return map[string]any{"batch": "[case0, case1, case0'] and [case1, case0, case1'], each with item deadlines none / {none,1h,2h} / {2h,none,2h} / {1h,1h,none}", "case0": cases[0].Facts(), "case1": cases[1].Facts(), "config": cfg,
 				"per_send": []string{singles[0].Long(), singles[1].Long()}}
 		}
 		return viol, label, singles[0] != singles[1], sample
